@@ -855,8 +855,13 @@ func c10parse(c *Ctx) {
 		return
 	}
 	isBound := func(v ssa.Value) bool {
-		call, idx := an.ResultOfCall(v)
-		return call != nil && idx == 0 && strings.HasPrefix(an.CalleeName(&call.Call), "strconv.")
+		for _, s := range cellSources(v) {
+			call, idx := an.ResultOfCall(s)
+			if call == nil || idx != 0 || !strings.HasPrefix(an.CalleeName(&call.Call), "strconv.") {
+				return false
+			}
+		}
+		return true
 	}
 	bad := ""
 	n := 0
@@ -875,5 +880,5 @@ func c10parse(c *Ctx) {
 			}
 		}
 	}
-	r.Check(bad == "" && n >= 3, "PATH", fkey(fn)+"/single-cpu-range-accepted", c.Pos(fn.Pos()), "no error for equal bounds", "an error return at "+bad+" is taken when the two bounds of a range are equal: a single-CPU range such as 3-3 makes the whole list unparsable")
+	r.Check(bad == "" && n >= 1, "PATH", fkey(fn)+"/single-cpu-range-accepted", c.Pos(fn.Pos()), "no error for equal bounds", "an error return at "+bad+" is taken when the two bounds of a range are equal: a single-CPU range such as 3-3 makes the whole list unparsable")
 }
